@@ -25,7 +25,17 @@ SizeIrrelevant(m, o) == ~m.s.known \/ m.s.mps >= o.len + 4000
 Apply(m, e) ==
     IF e.ev = "Cfg" THEN [Init0 EXCEPT !.run = e.run, !.errs = m.errs, !.ver = e.ver]
     ELSE IF m.skip THEN m
-    ELSE CASE e.ev = "Submit" ->
+    ELSE CASE e.ev = "Flt" ->
+                  \* one string of the enumeration of Validation.tla put to the crate's topic-name and topic-filter validators
+                  LET B(rule) == [Breach(m, e, rule) EXCEPT !.skip = FALSE] IN
+                  \* forbidden by the specification's grammar, let through by validation: it would be sent
+                  IF (e.specValid = 0 /\ e.codeValid = 1) \/ (e.specTopic = 0 /\ e.codeTopic = 1) THEN B("invalid-sent")
+                  ELSE IF (e.specValid = 1 /\ e.codeValid = 0) \/ (e.specTopic = 1 /\ e.codeTopic = 0) THEN B("valid-rejected")
+                  \* a shared / wildcard filter not recognised as one escapes the check against the server's announced capabilities
+                  ELSE IF e.specValid = 1 /\ ((e.specShared = 1 /\ e.codeShared = 0) \/ (e.specWild = 1 /\ e.codeWild = 0)) THEN B("invalid-sent")
+                  ELSE IF e.specValid = 1 /\ ((e.specShared = 0 /\ e.codeShared = 1) \/ (e.specWild = 0 /\ e.codeWild = 1)) THEN B("valid-rejected")
+                  ELSE m
+           [] e.ev = "Submit" ->
                   LET m2 == [m EXCEPT !.ops = Put(@, e.op, [kind |-> e.kind, qos |-> e.qos, retain |-> e.retain, variant |-> e.variant, len |-> e.len])]
                   IN IF e.variant \in StaticInvalid THEN [Breach(m2, e, "timing") EXCEPT !.skip = FALSE] ELSE m2
            [] e.ev = "Reject" -> IF e.variant \notin StaticInvalid THEN Breach(m, e, "valid-rejected") ELSE m
